@@ -117,13 +117,16 @@ func (b *bloomcache) build(ctx context.Context) error {
 	}()
 	defer close(b.buildChan)
 
+	verifPoint("build.lock")
 	b.buildMu.Lock()
 	defer b.buildMu.Unlock()
 
+	verifPoint("build.populate")
 	if err := b.populate(ctx, b.bloom.Load()); err != nil {
 		b.buildErr = err
 		return err
 	}
+	verifPoint("build.activate")
 	b.active.Store(true)
 	return nil
 }
@@ -146,6 +149,7 @@ func (b *bloomcache) build(ctx context.Context) error {
 // written concurrently assumes a snapshot-consistent datastore enumeration
 // (see rebuildLocked).
 func (b *bloomcache) Rebuild(ctx context.Context) error {
+	verifPoint("rebuild.lock")
 	b.buildMu.Lock()
 	defer b.buildMu.Unlock()
 
@@ -168,12 +172,16 @@ func (b *bloomcache) Rebuild(ctx context.Context) error {
 	// instead leave a block written concurrently with a rebuild as a transient
 	// false negative until the next rebuild: the bloom-pointer atomic orders
 	// only the filter swap, not datastore visibility.
+	verifPoint("rebuild.deactivate")
 	b.active.Store(false)
+	verifPoint("rebuild.swap")
 	b.bloom.Store(fresh)
 
+	verifPoint("rebuild.populate")
 	if err := b.populate(ctx, fresh); err != nil {
 		return err
 	}
+	verifPoint("rebuild.activate")
 	b.active.Store(true)
 	return nil
 }
@@ -201,11 +209,13 @@ func (b *bloomcache) populate(ctx context.Context, target *bloom.Bloom) error {
 				// errFn is a no-op returning nil (see allKeysChanWithErrFor) and
 				// the filter is treated as complete, preserving the pre-existing
 				// best-effort behavior for such stores.
+				verifPoint("populate.errfn")
 				if err := errFn(); err != nil {
 					return fmt.Errorf("bloomcache build incomplete, not activating filter: %w", err)
 				}
 				return nil
 			}
+			verifPoint("populate.add")
 			target.AddTS(key.Hash()) // Use binary key, the more compact the better
 		case <-ctx.Done():
 			return ctx.Err()
@@ -218,6 +228,7 @@ func (b *bloomcache) DeleteBlock(ctx context.Context, k cid.Cid) error {
 		return nil
 	}
 
+	verifPoint("pass")
 	return b.blockstore.DeleteBlock(ctx, k)
 }
 
@@ -236,8 +247,11 @@ func (b *bloomcache) hasCached(k cid.Cid) (has bool, ok bool) {
 	// the filter that was live while active was observed true. Reading active
 	// first could pair a stale active=true with the empty filter that a
 	// concurrent Rebuild swapped in, reporting a stored block as missing.
+	verifPoint("has.ptr")
 	bl := b.bloom.Load()
+	verifPoint("has.active")
 	if b.BloomActive() && b.bloom.Load() == bl {
+		verifPoint("has.filter")
 		blr := bl.HasTS(k.Hash())
 		if !blr { // not contained in bloom is only conclusive answer bloom gives
 			b.hits.Inc()
@@ -252,6 +266,7 @@ func (b *bloomcache) Has(ctx context.Context, k cid.Cid) (bool, error) {
 		return has, nil
 	}
 
+	verifPoint("pass")
 	return b.blockstore.Has(ctx, k)
 }
 
@@ -260,6 +275,7 @@ func (b *bloomcache) GetSize(ctx context.Context, k cid.Cid) (int, error) {
 		return -1, ipld.ErrNotFound{Cid: k}
 	}
 
+	verifPoint("pass")
 	return b.blockstore.GetSize(ctx, k)
 }
 
@@ -275,6 +291,7 @@ func (b *bloomcache) View(ctx context.Context, k cid.Cid, callback func([]byte) 
 	if has, ok := b.hasCached(k); ok && !has {
 		return ipld.ErrNotFound{Cid: k}
 	}
+	verifPoint("pass")
 	return b.viewer.View(ctx, k, callback)
 }
 
@@ -283,13 +300,16 @@ func (b *bloomcache) Get(ctx context.Context, k cid.Cid) (blocks.Block, error) {
 		return nil, ipld.ErrNotFound{Cid: k}
 	}
 
+	verifPoint("pass")
 	return b.blockstore.Get(ctx, k)
 }
 
 func (b *bloomcache) Put(ctx context.Context, bl blocks.Block) error {
 	// See comment in PutMany
+	verifPoint("put.store")
 	err := b.blockstore.Put(ctx, bl)
 	if err == nil {
+		verifPoint("put.add")
 		b.bloom.Load().AddTS(bl.Cid().Hash())
 	}
 	return err
@@ -300,11 +320,13 @@ func (b *bloomcache) PutMany(ctx context.Context, bs []blocks.Block) error {
 	// to reduce number of puts we need conclusive information if block is contained
 	// this means that PutMany can't be improved with bloom cache so we just
 	// just do a passthrough.
+	verifPoint("put.store")
 	err := b.blockstore.PutMany(ctx, bs)
 	if err != nil {
 		return err
 	}
 	for _, bl := range bs {
+		verifPoint("put.add")
 		b.bloom.Load().AddTS(bl.Cid().Hash())
 	}
 	return nil
